@@ -39,7 +39,7 @@ func runAll(w *collateralWorld, quote *pb.QuoteV4, level int) {
 // H16a: parsing copies: the result shares no memory with the input; input is not written.
 func H16a_ParseCopies() {
 	w := mkPKI(0, nil)
-	src := q.Valid("src_", q.Shape{AuthLen: 7, Chain: w.chainBytes})
+	src := q.Valid("src_", q.Shape{AuthLen: 7, Chain: w.chainBytes, Extra: vp.Bytes("padding", 39)})
 	src.SignedDataSize = uint32(590 + 7 + len(w.chainBytes))
 	src.SignedData.CertificationData.Size = uint32(590 + 7 + len(w.chainBytes) - 134)
 	raw, err := abi.QuoteToAbiBytes(src)
